@@ -248,14 +248,35 @@ def correspond(ctx):
 def pad_oracle(args):
     rng = np.random.default_rng(args["seed"])
     L = args["L"]
-    mps = random_mps(rng, L, [2] * L, args["chi"], False)
-    mps.normalize("B")
+    dims = args.get("dims") or [2] * L
+    if args.get("bonds"):
+        # legal inputs outside the qubit staircase: bonds wider than 2^min(i+1, L-1-i) (sites of dimension three, or a rank-deficient
+        # over-wide bond of a qubit chain), in an arbitrary gauge or brought to form B first
+        from mqt.yaqs.core.data_structures.networks import MPS
+
+        bd = [1] + [int(b) for b in args["bonds"]] + [1]
+        mps = MPS(L, tensors=[rng.normal(size=(dims[i], bd[i], bd[i + 1])) + 1j * rng.normal(size=(dims[i], bd[i], bd[i + 1])) for i in range(L)],
+                  physical_dimensions=list(dims))
+        if args.get("canonical", True):
+            mps.normalize("B")
+    else:
+        mps = random_mps(rng, L, dims, args["chi"], False)
+        mps.normalize("B")
     v = dense.mps_dense(mps)
     try:
         mps.pad_bond_dimension(args["target"])
     except ValueError:
-        return None  # target below a current bond: rejected, as documented
+        w = dense.mps_dense(mps)  # target below a current bond: rejected, as documented — and the state must be left as it was
+        if w.shape != v.shape or np.linalg.norm(w - v) > 1e-12 * max(1.0, np.linalg.norm(v)):
+            return f"pad_bond_dimension({args['target']}) refused the request but changed the state"
+        return None
     w = dense.mps_dense(mps)
+    if args.get("bonds"):
+        nv, nw = np.linalg.norm(v), np.linalg.norm(w)
+        if abs(abs(np.vdot(v, w)) - nv * nw) > 1e-9 * nv * nw or abs(nw - 1) > 1e-9:
+            return (f"pad_bond_dimension({args['target']}) on a chain with physical dimensions {dims} and bonds {args['bonds']} changed the represented "
+                    f"state (overlap {abs(np.vdot(v, w)) / (nv * nw):.12f}, norm afterwards {nw:.9f})")
+        return None
     if abs(abs(np.vdot(v, w)) - 1.0) > 1e-9 or abs(np.linalg.norm(w) - 1) > 1e-9:
         return f"pad_bond_dimension({args['target']}) changed the represented state (overlap {abs(np.vdot(v, w)):.12f})"
     want = [min(args["target"], 2 ** min(i + 1, L - 1 - i)) for i in range(L - 1)]
@@ -266,8 +287,18 @@ def pad_oracle(args):
 
 
 def search(ctx):
+    wide = [dict(L=4, dims=[3, 3, 3, 3], bonds=[3, 9, 3], target=9), dict(L=4, dims=[3, 2, 2, 3], bonds=[3, 4, 3], target=4),
+            dict(L=5, dims=[2] * 5, bonds=[4, 4, 4, 4], target=8), dict(L=5, dims=[2] * 5, bonds=[4, 4, 4, 4], target=4, canonical=False),
+            dict(L=3, dims=[2, 3, 2], bonds=[2, 2], target=2), dict(L=4, dims=[2] * 4, bonds=[2, 3, 2], target=4)]
     for k in range(ctx.scale(40, 600)):
         a = dict(seed=int(ctx.rng.integers(0, 2**31)), L=int(ctx.rng.integers(2, 7)), chi=int(ctx.rng.integers(1, 3)), target=int(ctx.rng.choice([2, 3, 4, 8, 16])))
+        if k < len(wide):
+            a.update(wide[k])
+            ctx.count("pad_outside_the_qubit_staircase")
+        elif k % 6 == 5:
+            L = a["L"]
+            a.update(dims=[int(x) for x in ctx.rng.choice([2, 2, 3], size=L)], bonds=[int(x) for x in ctx.rng.integers(1, 6, size=L - 1)], canonical=bool(k % 12 == 5))
+            ctx.count("pad_outside_the_qubit_staircase")
         why = pad_oracle(a)
         ctx.case(nontrivial_key=("pad", a["seed"]))
         ctx.count("pad")
